@@ -8,10 +8,10 @@ from .common import run_control, generic_rules, anchor_funcs
 
 def analyse(ctx: CheckContext, p: Program):
     r = Resolver(p)
-    generic_rules(ctx, p, r, "C10")
+    ctx.guard(generic_rules, ctx, p, r, "C10")
     cone = r.pipeline_cone()
-    own.check_utility_ownership(ctx, p, r, cone)
-    dedup.check_identity_dedup(ctx, p, r, anchor_funcs(p, "C10"))
+    ctx.guard(own.check_utility_ownership, ctx, p, r, cone)
+    ctx.guard(dedup.check_identity_dedup, ctx, p, r, anchor_funcs(p, "C10"))
 
 
 def run(ctx: CheckContext):
